@@ -334,6 +334,7 @@ func runCheck(prop, tier, only string, jobs, seed int, noReplay bool, dump strin
 	var sats []*satCase
 	broken := []string{}
 	fnSeen := map[string]int{}
+	satSeen := map[string]int{}
 	reachWant := map[string]bool{}
 	reachGot := map[string]bool{}
 	for _, r := range results {
@@ -407,7 +408,12 @@ func runCheck(prop, tier, only string, jobs, seed int, noReplay bool, dump strin
 					hs.WorstSecs = ob.Secs
 				}
 			case "sat":
-				sats = append(sats, &satCase{ob: ob, pkg: r.t.pkg})
+				ev.Coverage.SatObligations++
+				key := ob.Harness + "|" + ob.Msg
+				satSeen[key]++
+				if satSeen[key] <= 3 { // replay at most 3 witnesses per failing assertion
+					sats = append(sats, &satCase{ob: ob, pkg: r.t.pkg})
+				}
 			case "unknown":
 				ev.Coverage.Undecided = append(ev.Coverage.Undecided, fmt.Sprintf("%s[%s] %s: %s", r.t.harness, r.t.caseStr(), ob.Kind, ob.Msg))
 			default:
@@ -558,6 +564,9 @@ func runTask(l *loaded, t *task, tier, seed int, dump string) *taskResult {
 	ex.Seed = seed
 	if tier == 1 {
 		ex.FullMs = 120000
+	}
+	if v := os.Getenv("VERIF_MAXPATHS"); v != "" {
+		ex.MaxPaths, _ = strconv.Atoi(v)
 	}
 	ex.RunHarness(t.fn)
 	return &taskResult{t: t, ex: ex, needCase: ex.NeedCase, secs: time.Since(t0).Seconds(), solver: solver.Stats}
